@@ -678,10 +678,8 @@ class C01:
     def check_leaves(self):
         for leaf in self.ao.leaves.values():
             key_reads = []
-            found = leaf.ci.find_method("_get_aoef_key")
-            if found:
-                c, fn = found
-                ks = self.ctx.summ.of_node(c.module, fn, f"{c.qual}._get_aoef_key", c)
+            ks = self.ctx.summ.of_method(leaf.ci, "_get_aoef_key")
+            if ks is not None:
                 if len(ks.params) > 1:
                     for e in ks.returns:
                         key_reads += attr_reads(e.term, ("param", ks.params[1]))
